@@ -57,6 +57,11 @@ def enc(t, v) -> List[Any]:
     if k == "address":
         assert len(v) == 32
         return list(v)
+    if k == "sbytes":
+        assert len(v) == t[1]
+        return list(v)
+    if k == "ref":
+        return [v]
     if k in ("string", "dbytes"):
         return list(len(v).to_bytes(2, "big")) + list(v)
     if k == "darray":
@@ -138,6 +143,15 @@ def fresh_value(t, name: str, plan: LenPlan, leaves: List[Any]):
     if k == "uint":
         leaves.append((name, "uint", t[1]))
         return z3.BitVec(name, t[1])
+    if k == "ref":
+        leaves.append((name, "uint", 8))
+        return z3.BitVec(name, 8)
+    if k == "sbytes":
+        out = []
+        for i in range(t[1]):
+            leaves.append(("%s.%d" % (name, i), "uint", 8))
+            out.append(z3.BitVec("%s.%d" % (name, i), 8))
+        return out
     if k == "address":
         out = []
         for i in range(32):
@@ -195,7 +209,7 @@ def sdk_type(t):
     """algosdk type used for the reference encoding; `string` is encoded as byte[] (identical wire
     format) so that arbitrary bytes - not only valid UTF-8 - can be used as contents"""
     from algosdk import abi
-    s = T.T_str(t).replace("string", "byte[]")
+    s = T.T_str(t).replace("string", "byte[]").replace("account", "uint8").replace("asset", "uint8").replace("application", "uint8")
     return abi.ABIType.from_string(s)
 
 
@@ -206,6 +220,8 @@ def sdk_encode(t, v) -> bytes:
             return list(v)
         if k == "address":
             return bytes(v)
+        if k == "sbytes":
+            return list(v)
         if k in ("darray", "sarray"):
             return [conv(t[1], x) for x in v]
         if k in ("tuple", "ntuple"):
